@@ -35,12 +35,23 @@ def main():
     if pid not in ENGINE_OF:
         print("unknown or unclaimed property", pid)
         return 2
+    # every temp file of every engine / shard process of this run lives under one scratch dir, removed on exit
+    import shutil, tempfile
+    scratch = tempfile.mkdtemp(prefix="verif-run-%s-" % pid)
+    os.environ["TMPDIR"] = scratch
+    tempfile.tempdir = scratch
+
+    def cleanup():
+        shutil.rmtree(scratch, ignore_errors=True)
+    import atexit
+    atexit.register(cleanup)
     ctx = Ctx(pid, tier, seed, replay)
     hard = {"quick": 900, "thorough": 5400}[tier]
 
     def on_alarm(signum, frame):
         print("[%s] hard timeout after %ds" % (pid, hard))
         sys.stdout.flush()
+        cleanup()
         os._exit(2)
     signal.signal(signal.SIGALRM, on_alarm)
     signal.alarm(hard)
